@@ -947,26 +947,17 @@ func (w *Writer) writeEntryPointInputStruct(epIdx int, ep *ir.EntryPoint, fn *ir
 	// self.namer.call(&format!("{fun_name}Input"))
 	structName := w.namer.call(epName + "Input")
 
-	if hasLocationInputs {
-		emitInputStruct(structName, func() {
-			for i, arg := range fn.Arguments {
-				if arg.Binding == nil {
-					continue
-				}
-				loc, ok := (*arg.Binding).(ir.LocationBinding)
-				if !ok {
-					continue
-				}
-				argName := w.getName(nameKey{kind: nameKeyFunctionArgument, handle1: uint32(epFuncHandle(epIdx)), handle2: uint32(i)})
-				argType := w.writeTypeName(arg.Type, StorageAccess(0))
+	// emitLocationArg writes the input-struct field of a bare @location argument.
+	emitLocationArg := func(i int, arg *ir.FunctionArgument) {
+		loc, ok := (*arg.Binding).(ir.LocationBinding)
+		if !ok {
+			return
+		}
+		argName := w.getName(nameKey{kind: nameKeyFunctionArgument, handle1: uint32(epFuncHandle(epIdx)), handle2: uint32(i)})
+		argType := w.writeTypeName(arg.Type, StorageAccess(0))
 
-				attr := locationInputAttribute(loc, ep.Stage, w.typeScalarKind(arg.Type))
-				w.WriteLine("%s %s %s;", argType, argName, attr)
-			}
-		})
-
-		w.hasVaryings = true
-		return structName, true
+		attr := locationInputAttribute(loc, ep.Stage, w.typeScalarKind(arg.Type))
+		w.WriteLine("%s %s %s;", argType, argName, attr)
 	}
 
 	// Collect ALL struct args without bindings (flattened struct inputs).
@@ -987,6 +978,21 @@ func (w *Writer) writeEntryPointInputStruct(epIdx int, ep *ir.EntryPoint, fn *ir
 		if st, ok := w.module.Types[arg.Type].Inner.(ir.StructType); ok {
 			structArgs = append(structArgs, structArgInfo{argIdx: i, st: st, tyH: arg.Type})
 		}
+	}
+
+	// Only bare @location arguments: they alone make up the input struct. (With
+	// struct arguments as well, both kinds go into the one struct below.)
+	if hasLocationInputs && len(structArgs) == 0 {
+		emitInputStruct(structName, func() {
+			for i := range fn.Arguments {
+				if fn.Arguments[i].Binding != nil {
+					emitLocationArg(i, &fn.Arguments[i])
+				}
+			}
+		})
+
+		w.hasVaryings = true
+		return structName, true
 	}
 
 	// Emit empty input struct for entry points with builtin-only arguments
@@ -1027,8 +1033,14 @@ func (w *Writer) writeEntryPointInputStruct(epIdx int, ep *ir.EntryPoint, fn *ir
 			}
 		}
 
-		// Emit input struct with location-bound members from ALL struct args.
+		// Emit input struct with the bare @location arguments and the location-bound
+		// members of ALL struct args.
 		emitInputStruct(structName, func() {
+			for i := range fn.Arguments {
+				if fn.Arguments[i].Binding != nil {
+					emitLocationArg(i, &fn.Arguments[i])
+				}
+			}
 			for _, sa := range structArgs {
 				for memberIdx, member := range sa.st.Members {
 					if member.Binding == nil {
@@ -1047,7 +1059,7 @@ func (w *Writer) writeEntryPointInputStruct(epIdx int, ep *ir.EntryPoint, fn *ir
 			}
 		})
 
-		w.hasVaryings = hasLocations
+		w.hasVaryings = hasLocations || hasLocationInputs
 		return structName, true
 	}
 	return "", false
